@@ -348,6 +348,31 @@ def run(ctx: Any, prog: Program) -> None:
             rebinds.remove(rb)
     ctx.check('C01.R4', not rebinds, kv, rebinds[0] if rebinds else parse, f'Keyvalues.parse rebinds its input `{src_param}` before tokenizing (`{U(kv.parents.get(rebinds[0]))[:70] if rebinds else ""}`): '
               'a pre-pass over the raw chunks cannot know whether it is inside a quoted string, so content is altered depending on how the text was split', text='input reaches the tokenizer unchanged')
+    # ... and the names: what parse() stores as a keyvalue's real name is the token text itself (interned or not).  Anything computed from it - the
+    # case-folded form on some condition, a stripped or normalised spelling - is not the name that was written (`islower()` does not mean
+    # `casefold()` changes nothing: 'straße'.casefold() == 'strasse').
+    tok_vars = {l_.target.elts[1].id for l_ in ast.walk(parse) if isinstance(l_, ast.For) and isinstance(l_.target, ast.Tuple) and len(l_.target.elts) == 2 and all(isinstance(e_, ast.Name) for e_ in l_.target.elts)
+                and any(isinstance(x, ast.Name) and x.id in ('tokenizer',) for x in ast.walk(l_.iter))}
+    name_stores = [a for a in ast.walk(parse) if isinstance(a, ast.Assign) and any(isinstance(t, ast.Attribute) and t.attr in ('real_name', '_real_name') for t in a.targets)]
+    ctx.shape('C01.R4', bool(tok_vars) and bool(name_stores), kv, parse, 'Keyvalues.parse: token loop / store of the real name not found', text='parsed name stored as read')
+
+    def _alts(e: ast.AST) -> List[ast.AST]:
+        if isinstance(e, ast.IfExp):
+            return _alts(e.body) + _alts(e.orelse)
+        if isinstance(e, ast.Call) and dotted(e.func) in ('sys.intern', 'intern', 'str') and len(e.args) == 1:
+            return _alts(e.args[0])
+        if isinstance(e, ast.Name) and e.id not in tok_vars:
+            defs_ = [a.value for a in ast.walk(parse) if isinstance(a, ast.Assign) and any(isinstance(t, ast.Name) and t.id == e.id for t in a.targets)]
+            if len(defs_) == 1:
+                return _alts(defs_[0])
+        return [e]
+    for ns in name_stores:
+        bad = [a for a in _alts(ns.value) if not (isinstance(a, ast.Name) and a.id in tok_vars) and not isinstance(a, ast.Constant)]          # literals: the root, the placeholder of a skipped block
+        if bad and not any(isinstance(c, ast.Call) and isinstance(c.func, ast.Attribute) and c.func.attr in ('casefold', 'lower', 'upper', 'strip', 'title', 'replace') for b in bad for c in ast.walk(b)):
+            ctx.shape('C01.R4', False, kv, ns, f'real name stored as `{U(ns.value)[:60]}`: not recognised', text='parsed name stored as read')
+            continue
+        ctx.check('C01.R4', not bad, kv, ns, f'Keyvalues.parse stores `{U(bad[0])[:60] if bad else ""}` as the real name of a keyvalue on some path, not the token text: a name whose case-folded form differs from it while '
+                  '`islower()` is true (straße, the micro sign, final sigma) comes back as another string', text='parsed name stored as read')
     ok = 'string_bracket' in kw and isinstance(kw['string_bracket'], ast.Constant)
     # ---- R5 (parse side) ---------------------------------------------------------------------------
     # list mutations of the current block: only .append, or index-store guarded by a PROP_FLAG test
@@ -579,6 +604,7 @@ def _in_orelse(ifnode: ast.If, node: ast.AST, mod: Any) -> bool:
 
 
 MUTANTS = [
+    {'id': 'parsed_name_shares_folded_string', 'file': 'keyvalues.py', 'find': "                keyvalue.real_name = sys.intern(token_value)\n", 'replace': "                keyvalue._real_name = keyvalue._folded_name if token_value.islower() else sys.intern(token_value)\n", 'expect': 'C01.R4'},
     {'id': 'parse_prefilters_chunks', 'file': 'keyvalues.py', 'find': "            tokenizer = Tokenizer(\n                file_contents,", 'replace': "            if not isinstance(file_contents, (str, bytes)):\n                file_contents = (ln for ln in file_contents if not ln.startswith('//'))\n            tokenizer = Tokenizer(\n                file_contents,", 'expect': 'C01.R4'},
     {'id': 'value_newline_guard_loses_parentheses', 'file': 'keyvalues.py', 'find': "                    if not newline_values and ('\\n' in prop_value or '\\r' in prop_value):", 'replace': "                    if not newline_values and '\\n' in prop_value or '\\r' in prop_value:", 'expect': 'C01.R7'},
     {'id': 'pushback_list_class_level', 'file': 'tokenizer.py', 'find': "    _pushback: list[tuple[Token, str]]\n", 'replace': "    _pushback: list[tuple[Token, str]] = []\n", 'extra': [{'file': 'tokenizer.py', 'find': "        self._pushback = []\n        self.line_num = 1\n", 'replace': "        self.line_num = 1\n"}], 'expect': 'C01.R10'},
